@@ -271,11 +271,26 @@ Definition seal_settles_b (SO : stf_oracle) (pre post : wstate) (d : denom) : bo
   coin_supply d (s_coins post) + psum K d post + liq_of K SO d pre
   <=? coin_supply d (s_coins pre) + psum K d pre + liq_of K SO d post + bootstrap K d pre.
 
+(* F19: before height 978392 the two public networks credit the second coin of a deposit to the pool and keep
+   the coin: exactly that value is created *)
+Definition legacy_deposit_inflation (d : denom) (pre : wstate) : N :=
+  if legacy_net pre && (s_height pre <? 978392) then
+    fold_left (fun acc t =>
+      if txkind_eqb (t_kind t) KLiqDeposit && match tx_pool t with Some _ => true | None => false end then
+        match s_coins pre !! coin_key (t_hash t) 1 with
+        | Some c => if denom_eqb (cd_denom (c_data c)) d then acc + cd_value (c_data c) else acc
+        | None => acc
+        end
+      else acc) (map snd (map_to_list (s_txs pre))) 0
+  else 0.
+
 Definition reflect_seal (SO : stf_oracle) (pre post : wstate) (a : option action) : list (N * N) :=
   let ds := state_denoms pre (state_denoms post [Mel; Sym; Erg]) in
   let legacy := legacy_net pre && (s_height pre <? 978392) in
   (* C01 *)
-  flat_map (fun d => flag 1 (supply d post <=? supply d pre + seal_issuance SO d pre) 2) ds
+  flat_map (fun d => flag 1 (supply d post <=? supply d pre + seal_issuance SO d pre + legacy_deposit_inflation d pre) 2) ds
+  (* known finding F19, by its exact witness: what the kept second coins of legacy deposits are worth *)
+  ++ flat_map (fun d => flag 1 ((legacy_deposit_inflation d pre =? 0) || (supply d post <=? supply d pre + seal_issuance SO d pre)) 6) ds
   ++ flag 1 (legacy || forallb (fun d => negb (unpegged_b d) || seal_settles_b SO pre post d) ds) 5
   ++ flag 16 (legacy || forallb (fun d => match d with Custom _ => seal_settles_b SO pre post d | _ => true end) ds) 3
   (* C05 *)
